@@ -32,7 +32,17 @@ type C09Case struct {
 	Files []string `json:"files"`
 	Reqs  []C09Req `json:"reqs"`
 	Probe bool     `json:"probe"` // also probe the shell endpoints
+	// ProbeMethod is the request method the /c and /i/x probes use ("" = GET):
+	// the endpoints keep their meaning whatever the method.
+	ProbeMethod string `json:"probe_method,omitempty"`
 }
+
+// strictShell matches request targets that the mux certainly routes to a shell
+// endpoint (no escapes, dots, backslashes or doubled slashes): such a request
+// must never be answered from the file tree, whatever its method.
+var strictShell = regexp.MustCompile(`^/(c|io|io/[A-Za-z0-9-]*|i/[A-Za-z0-9-]+|o/[A-Za-z0-9-]+)$`)
+
+func isStrictShell(r C09Req) bool { return r.Form == "origin" && strictShell.MatchString(r.target()) }
 
 var insideNames = []string{"a.txt", "sub/b.txt", "c", "io", "i/x", "o/x", "index.html", "sp ace.txt", "pct%41.txt", "ü.txt", "sub/deep/d.bin", "..hidden", "sub/index.html", "io/y", "c/z"}
 
@@ -67,7 +77,7 @@ func (r C09Req) raw() []byte {
 	}
 	var sb strings.Builder
 	fmt.Fprintf(&sb, "%s %s HTTP/1.1\r\nHost: files.example\r\nConnection: close\r\n", m, r.target())
-	if m == "POST" {
+	if m != "GET" && m != "HEAD" && m != "OPTIONS" && m != "CONNECT" {
 		sb.WriteString("Content-Length: 0\r\n")
 	}
 	sb.WriteString(r.Extra)
@@ -250,6 +260,13 @@ func runC09(t testing.TB, c C09Case) (key, what string, st c09Stats) {
 		if bytes.Contains(body, []byte(canaryTok)) {
 			return "outside-file-served", fmt.Sprintf("%s: response (status %d) contains the contents of a file outside the served tree: %q", desc, res.Status, clip(string(body), 200)), st
 		}
+		// (1b) a shell endpoint is never answered from the file tree
+		if isStrictShell(rq) {
+			st.classes["strict-shell-endpoint-"+rq.Method]++
+			if bytes.Contains(body, []byte(fileTok)) {
+				return "endpoint-shadowed", fmt.Sprintf("%s: a shell endpoint answered (status %d) with file contents: %q", desc, res.Status, clip(string(body), 120)), st
+			}
+		}
 		if res.Status/100 == 2 && len(body) > 0 && !streaming {
 			isListing := bytes.Contains(body, []byte("<pre>")) && bytes.Contains(body, []byte("</pre>"))
 			switch c.Mode {
@@ -336,23 +353,49 @@ func runC09(t testing.TB, c C09Case) (key, what string, st c09Stats) {
 // probeEndpoints checks that /c, /i/x, /o/x and /io keep their meaning even
 // when files with those names exist.
 func probeEndpoints(s *Srv, ti treeInfo, c C09Case) (string, string) {
-	res, err := s.Request([]byte("GET /c HTTP/1.1\r\nHost: cb.example:1\r\nConnection: close\r\n\r\n"), "GET", "")
+	pm := c.ProbeMethod
+	if pm == "" {
+		pm = "GET"
+	}
+	res, err := s.Request([]byte(pm+" /c HTTP/1.1\r\nHost: cb.example:1\r\nContent-Length: 0\r\nConnection: close\r\n\r\n"), pm, "")
 	if err != nil {
 		return "HARNESS", "probe /c: " + err.Error()
 	}
 	if bytes.Contains(res.Body, []byte(fileTok)) || res.Status != 200 || strings.Count(string(res.Body), "curl") < 2 || !strings.Contains(string(res.Body), "/i/") || !strings.Contains(string(res.Body), "/o/") {
-		return "endpoint-shadowed", fmt.Sprintf("/c did not return a callback script (status %d): %q", res.Status, clip(string(res.Body), 200))
+		return "endpoint-shadowed", fmt.Sprintf("%s /c did not return a callback script (status %d): %q", pm, res.Status, clip(string(res.Body), 200))
 	}
-	from := s.Seq()
-	ic, err := s.OpenIn("/i/x", "h")
-	if err != nil {
-		return "HARNESS", "probe /i/x: " + err.Error()
+	// a stream opened by one of the generated requests may still be winding
+	// down: wait until the broker is idle (a refusal here would say nothing
+	// about routing)
+	var ic *InClient
+	var from int64
+	for try := 0; ; try++ {
+		s.Barrier()
+		from = s.Seq()
+		if ic, err = OpenInMethodAt(s.DialAddr(), pm, "/i/x", "h"); err != nil {
+			return "HARNESS", "probe /i/x: " + err.Error()
+		}
+		if _, ok := s.WaitLine(Wait, from, "Input connected"); ok {
+			break
+		}
+		got, _ := ic.Got()
+		ic.Close()
+		rejected := false
+		for _, l := range s.Lines() {
+			if l.Seq > from && strings.Contains(l.CL.Line, "Rejected") {
+				rejected = true
+			}
+		}
+		if rejected && try < 5 {
+			time.Sleep(200 * time.Millisecond)
+			continue
+		}
+		if rejected {
+			return "HARNESS", "probe /i/x kept being refused"
+		}
+		return "endpoint-shadowed", fmt.Sprintf("%s /i/x did not attach an input stream (status %d, body %q)", pm, ic.Status, clip(string(got), 100))
 	}
 	defer ic.Close()
-	if _, ok := s.WaitLine(Wait, from, "Input connected"); !ok {
-		got, _ := ic.Got()
-		return "endpoint-shadowed", fmt.Sprintf("/i/x did not attach an input stream (status %d, body %q)", ic.Status, clip(string(got), 100))
-	}
 	oc, err := s.OpenOut("/o/x", "h")
 	if err != nil {
 		return "HARNESS", "probe /o/x: " + err.Error()
@@ -405,6 +448,9 @@ var hostileSegs = []string{"..", ".", "%2e%2e", "%2E.", ".%2e", "%252e%252e", ".
 func genC09() *rapid.Generator[C09Case] {
 	return rapid.Custom(func(t *rapid.T) C09Case {
 		c := C09Case{Mode: rapid.SampledFrom([]string{"dir", "dir", "dir", "file", "unset"}).Draw(t, "mode"), Probe: rapid.IntRange(0, 3).Draw(t, "probe") == 0}
+		if c.Probe {
+			c.ProbeMethod = rapid.SampledFrom([]string{"", "", "POST", "PUT", "DELETE", "PATCH", "PROPFIND", "OPTIONS"}).Draw(t, "probemethod")
+		}
 		for _, n := range insideNames {
 			if rapid.IntRange(0, 2).Draw(t, "has") != 0 {
 				c.Files = append(c.Files, n)
@@ -417,6 +463,15 @@ func genC09() *rapid.Generator[C09Case] {
 				Form:   rapid.SampledFrom([]string{"origin", "origin", "origin", "absolute", "connect"}).Draw(t, "form"),
 			}
 			ns := rapid.IntRange(0, 7).Draw(t, "nseg")
+			if rapid.IntRange(0, 7).Draw(t, "direct") == 0 {
+				// a plain request for a shell endpoint, any method
+				r.Form, ns = "origin", 0
+				r.Method = rapid.SampledFrom([]string{"GET", "HEAD", "POST", "PUT", "DELETE", "OPTIONS", "PATCH", "PROPFIND"}).Draw(t, "shellmethod")
+				r.Segs = strings.Split(rapid.SampledFrom([]string{"c", "i/x", "o/x", "io", "io/y", "i/y", "o/z"}).Draw(t, "shellpath"), "/")
+				for range r.Segs[1:] {
+					r.Seps = append(r.Seps, "/")
+				}
+			}
 			for j := 0; j < ns; j++ {
 				seg := rapid.SampledFrom(hostileSegs).Draw(t, "seg")
 				if rapid.IntRange(0, 60).Draw(t, "long") == 0 {
